@@ -34,7 +34,9 @@ var c15Methods = []string{"GET", "HEAD", "POST", "PUT", "PATCH", "DELETE", "OPTI
 var c15ContentTypes = []string{"", "application/json", "application/json; charset=utf-8", "application/json;charset=UTF-8", "Application/JSON", "application/json ; charset=utf-8", " application/json",
 	"application/x-www-form-urlencoded", "application/x-www-form-urlencoded; charset=utf-8", "APPLICATION/X-WWW-FORM-URLENCODED", "text/plain", "multipart/form-data; boundary=x", "application/jsonx", "application/x-json", "json",
 	// parameters are ignored, whatever they look like: duplicated, valueless, badly quoted, empty
-	"application/json; charset=utf-8; charset=utf-8", "application/json; charset=utf-8; Charset=latin1", "application/json; a=1; a=2", "application/json; charset", "application/json;", "application/json; q=\"unterminated", "application/x-www-form-urlencoded; charset=utf-8; CHARSET=latin1", "application/x-www-form-urlencoded;;"}
+	"application/json; charset=utf-8; charset=utf-8", "application/json; charset=utf-8; Charset=latin1", "application/json; a=1; a=2", "application/json; charset", "application/json;", "application/json; q=\"unterminated", "application/x-www-form-urlencoded; charset=utf-8; CHARSET=latin1", "application/x-www-form-urlencoded;;",
+	// media type names are ASCII: letters that Unicode case folding maps onto ASCII letters (long s, Kelvin sign) make another, unknown type
+	"application/j\u017fon", "APPLICATION/J\u017fON; charset=utf-8", "application/x-www-form-urlen\u212aoded"}
 
 const c15JSON = `{"src":"json","only_b":"json-only","list":["j1","j2"],"num":7,"nested":{"v":"jn"}}`
 const c15Multipart = "--x\r\nContent-Disposition: form-data; name=\"src\"\r\n\r\nmultipart-body\r\n--x\r\nContent-Disposition: form-data; name=\"only_b\"\r\n\r\nmultipart-only\r\n--x--\r\n"
@@ -59,7 +61,9 @@ func c15Schema() *spec.Node {
 		n.Tests = append(n.Tests, probeTest())
 		return n
 	}
-	nested := structOf("v", probe(str()))
+	dflt := str()
+	dflt.Mods = []spec.Mod{{Op: spec.MDefault, Val: "nested-default"}}
+	nested := structOf("v", probe(str()), "dflt", dflt, "rq", req(prim(spec.Int)))
 	nested.Fields[0].Tags = map[string]string{}
 	n := structOf("src", probe(req(str())), "only_b", probe(str()), "only_q", probe(str()), "list", probe(sliceOf(str())), "arr", probe(sliceOf(str())), "n", probe(prim(spec.Int)), "nested", nested)
 	n.Fields[4].Tags = map[string]string{"form": "arr[]", "query": "arr[]", "json": "arr"}
@@ -93,7 +97,13 @@ func mediaType(ct string) string {
 	if i := strings.IndexByte(ct, ';'); i >= 0 {
 		ct = ct[:i]
 	}
-	return strings.ToLower(strings.TrimSpace(ct))
+	b := []byte(strings.TrimSpace(ct))
+	for i := range b {
+		if b[i] >= 'A' && b[i] <= 'Z' {
+			b[i] += 'a' - 'A'
+		}
+	}
+	return string(b)
 }
 
 // c15Expect computes the documented outcome. kind: "query", "json", "form".
